@@ -13,7 +13,8 @@ NAMESPACE = 'Props.C07'
 LEAN_CONE = ['PncModel.NcStore', 'PncProofs.C07']
 LEMMA_FILES = []
 REQUIRED_THEOREMS = ['cell_roundtrip', 'var_roundtrip', 'file_roundtrip', 'mask_lost_counterexample']
-RULE = ('random files (1-3 dimensions, optional unlimited first dimension - several unlimited dimensions in NETCDF4 -, 1-5 variables of every dtype the flavour '
+RULE = ('[second cycle] every reopened file (a netcdf-class object whose variables live on disk) is saved and reopened once more and must come back unchanged; ' +
+        'random files (1-3 dimensions, optional unlimited first dimension - several unlimited dimensions in NETCDF4 -, 1-5 variables of every dtype the flavour '
         'can store incl. char, rank 0-3, masked variables whose fill is given as fill_value / missing_value / '
         '_FillValue / both (equal or different), str / float / int / array attributes on variables and file, a '
         'leading-underscore attribute) x four netCDF flavours x complevel 0/4: save() then pncopen(format=netcdf); '
@@ -238,6 +239,7 @@ def impl(case):
         f = build(case)
         src = obs(f)
         p = os.path.join(camx.tmpdir(), 'c07_%d_%d.nc' % (os.getpid(), np.random.randint(1 << 30)))
+        p2 = p[:-3] + '_again.nc'
         try:
             import PseudoNetCDF as pnc
             try:
@@ -255,15 +257,27 @@ def impl(case):
                 g = pnc.pncopen(p, format='netcdf')
                 out = obs(g)
                 flav = str(g.file_format)
+                # second cycle: the reopened file (a netcdf-class object, its variables live on disk) saved again and reopened
+                second = None
+                try:
+                    g.save(p2, format=case['flavour'], complevel=case['complevel'], verbose=0).close()
+                    g2 = pnc.pncopen(p2, format='netcdf')
+                    second = dict(out=obs(g2), flavour=str(g2.file_format))
+                    g2.close()
+                except lib.HarnessError:
+                    raise
+                except Exception as e:
+                    second = dict(err='%s %s' % (type(e).__name__, str(e)[:100]))
                 g.close()
             except lib.HarnessError:
                 raise
             except Exception as e:
                 return dict(src=src, err=type(e).__name__, msg=str(e)[:100])
-            return dict(src=src, out=out, flavour=flav)
+            return dict(src=src, out=out, flavour=flav, second=second)
         finally:
-            if os.path.exists(p):
-                os.remove(p)
+            for q in (p, p2):
+                if os.path.exists(q):
+                    os.remove(q)
 
 
 def to_line(case, res):
@@ -332,7 +346,21 @@ def oracle(case, res):
     for k in list(a['vars']):
         if k in skip:
             a['vars'][k]['cells'] = b['vars'].get(k, {}).get('cells')
-    return _diff(a, b, what=('dt', 'dims', 'attrs', 'missing', 'fill', 'cells'))
+    d = _diff(a, b, what=('dt', 'dims', 'attrs', 'missing', 'fill', 'cells'))
+    if d:
+        return d
+    # second cycle: what was reopened is a file like any other - saved again it must come back unchanged
+    sec = res.get('second')
+    if sec is not None:
+        if 'err' in sec:
+            return 'the reopened file could not be saved again: ' + sec['err']
+        if sec['flavour'] != case['flavour']:
+            return 'second cycle: format=%s was requested, the file on disk is %s' % (case['flavour'], sec['flavour'])
+        c = _parse(sec['out'])
+        d2 = _diff(b, c, what=('dt', 'dims', 'attrs', 'missing', 'fill', 'cells'))
+        if d2:
+            return 'second save/open cycle changed the file: ' + d2
+    return None
 
 
 def classify(case, failure, model_out):
